@@ -132,7 +132,7 @@ func run(c *hc.Ctx) error {
 	if err := q.Flush(c); err != nil {
 		return err
 	}
-	c.Res.Rule = "countPadding: every residue l mod 16 (l = 0..63 and four large lengths) × all 256 random bytes (exhaustive for the function's case split). Round trips: every payload length 0..4096 step 4 (once in quick, ten times in thorough) + random up to 16 KiB (64 KiB thorough) + 64 KiB, 256 KiB (quick) / 1 MiB (thorough), both directions, random keys (5% all-zero/all-FF/low entropy), three encoder paths (Message encoder, raw MessageDataWithPadding, proto.GZIP). Hand-made frames with padding 0..11, 12, 1024, 1028.. and length fields ≡ 1,2,3 mod 4 or negative. Every ciphertext buffer and every accepted *EncryptedMessageData is retained as returned and re-read after later calls; the round trip also runs from 2..4 goroutines at once. Non-trivial = all; distinct = distinct input line"
+	c.Res.Rule = "countPadding: every residue l mod 16 (l = 0..63 and four large lengths) × all 256 random bytes (exhaustive for the function's case split). Round trips: every payload length 0..4096 step 4 (once in quick, ten times in thorough) + random up to 16 KiB (64 KiB thorough) + 64 KiB, 256 KiB (quick) / 1 MiB (thorough), both directions, random keys (5% all-zero/all-FF/low entropy), header fields random and at their extremes (0, ±1, min/max, sign bits), four encoder paths (Message encoder and proto.GZIP through EncodeWithoutCopy — model entry encm; raw MessageDataWithPadding and raw with a shorter declared length through Encode — model entry enc). Hand-made frames with padding 0..11, 12, 1024, 1028.. and length fields ≡ 1,2,3 mod 4 or negative. Every ciphertext buffer and every accepted *EncryptedMessageData is retained as returned and re-read after later calls; the round trip also runs from 2..4 goroutines at once. Non-trivial = all; distinct = distinct input line"
 	c.PartialNote("gzip compression itself is not modelled: on the proto.GZIP path the model encrypts the bytes the Go encoder produced; the monitor checks that the decrypted object gunzips to the original data")
 	return nil
 }
@@ -144,11 +144,20 @@ func roundTrip(c *hc.Ctx, q *c04shared.Queue, rt *c04shared.Retainer, side crypt
 	if r.Chance(5) {
 		copy(ak.ID[:], r.Bytes(8))
 	}
-	salt, sid, mid, seq := int64(r.U64()), int64(r.U64()), int64(r.U64()), int32(r.U64())
+	// header values: random, and the extremes of every field (sign bits, all ones, zero)
+	x64 := func() int64 {
+		return hc.Pick(r, int64(r.U64()), int64(r.U64()), 0, 1, -1, -1<<63, 1<<63-1, int64(r.U64())&0xffffffff, -int64(r.U64()&0xffffffff))
+	}
+	salt, sid, mid := x64(), x64(), x64()
+	seq := hc.Pick(r, int32(r.U64()), int32(r.U64()), 0, 1, -1, -1<<31, 1<<31-1, -2)
 	rnd := r.Bytes(1 + 16 + 16*16 + r.Intn(8))
 	d := crypto.EncryptedMessageData{Salt: salt, SessionID: sid, MessageID: mid, SeqNo: seq}
 	wire := payload
 	pathName := ""
+	declared := -1 // raw path only: MessageDataLen as given by the caller
+	if path == 1 && len(payload) >= 8 && r.Chance(25) {
+		path = 3
+	}
 	switch path {
 	case 0:
 		d.Message = rawEnc(payload)
@@ -157,6 +166,11 @@ func roundTrip(c *hc.Ctx, q *c04shared.Queue, rt *c04shared.Retainer, side crypt
 		d.MessageDataLen = int32(len(payload))
 		d.MessageDataWithPadding = payload
 		pathName = "raw-bytes"
+	case 3: // raw path, caller declares fewer bytes than it passes (the rest travels as extra padding)
+		declared = len(payload) - 4*r.Range(1, min(len(payload)/4, 170))
+		d.MessageDataLen = int32(declared)
+		d.MessageDataWithPadding = payload
+		pathName = "raw-bytes-short-len"
 	case 2:
 		g := proto.GZIP{Data: payload}
 		var gb bin.Buffer
@@ -180,6 +194,14 @@ func roundTrip(c *hc.Ctx, q *c04shared.Queue, rt *c04shared.Retainer, side crypt
 	b := &bin.Buffer{} // own buffer per call: its contents are the API's result and are retained
 	line := fmt.Sprintf("enc %s %s %s %d %d %d %d %d %s %s", c04shared.SideName(side), hc.Hex(key[:]), hc.Hex(ak.ID[:]),
 		uint64(salt), uint64(sid), uint64(mid), uint32(seq), uint32(len(wire)), hc.Hex(wire), hc.Hex(rnd))
+	if declared >= 0 {
+		line = fmt.Sprintf("enc %s %s %s %d %d %d %d %d %s %s", c04shared.SideName(side), hc.Hex(key[:]), hc.Hex(ak.ID[:]),
+			uint64(salt), uint64(sid), uint64(mid), uint32(seq), uint32(declared), hc.Hex(wire), hc.Hex(rnd))
+	}
+	if path == 0 || path == 2 { // Message != nil: the EncodeWithoutCopy path has its own model entry
+		line = fmt.Sprintf("encm %s %s %s %d %d %d %d %s %s", c04shared.SideName(side), hc.Hex(key[:]), hc.Hex(ak.ID[:]),
+			uint64(salt), uint64(sid), uint64(mid), uint32(seq), hc.Hex(wire), hc.Hex(rnd))
+	}
 	c.Eval(c04shared.Sig(line), true)
 	if err := enc.Encrypt(ak, d, b); err != nil {
 		c.Fail("encrypt-error", line, err.Error())
@@ -193,6 +215,10 @@ func roundTrip(c *hc.Ctx, q *c04shared.Queue, rt *c04shared.Retainer, side crypt
 		c.Fail("body-not-block-aligned", line, fmt.Sprintf("ciphertext length %d", len(ct)))
 	}
 	pad := len(ct) - 24 - 32 - len(wire)
+	want := wire
+	if declared >= 0 {
+		want = wire[:declared]
+	}
 	if pad < 12 || pad > 1024 {
 		c.Fail("sent-padding-out-of-bounds", line, fmt.Sprintf("padding %d", pad))
 	}
@@ -206,7 +232,7 @@ func roundTrip(c *hc.Ctx, q *c04shared.Queue, rt *c04shared.Retainer, side crypt
 	}
 	c04shared.KeepDecrypted(rt, dline, got)
 	if got.Salt != salt || got.SessionID != sid || got.MessageID != mid || got.SeqNo != seq ||
-		int(got.MessageDataLen) != len(wire) || !bytes.Equal(got.Data(), wire) {
+		int(got.MessageDataLen) != len(want) || !bytes.Equal(got.Data(), want) {
 		c.Fail("roundtrip-differs", line, fmt.Sprintf("got salt=%d sid=%d mid=%d seq=%d len=%d", got.Salt, got.SessionID, got.MessageID, got.SeqNo, got.MessageDataLen))
 	}
 	if path == 2 {
